@@ -1,6 +1,7 @@
 import Driver.Util
 import Sqfs.Spec.IoLoops
 import Sqfs.Model.XfrmStream
+import Sqfs.Model.C12TarStream
 /-
 `sqfsmodel c12`: one scenario per line, same protocol as harness/h_c12.c.
 
@@ -9,8 +10,16 @@ import Sqfs.Model.XfrmStream
   ostream <s|n> <op,op,...> <script>            ops: d<data> | h<n> (hole) | f (flush)
   istream <B> <s|n> <data> <op,op,...> <script> ops: g<want> a<count> R<size> S<size> P<size> L<flags> M<size>
   spec    <B> <data> <op,op,...>                the specification (Sqfs.Spec.IoLoops) on the same client ops
+  ostream <S|N> ...                             as `ostream`, but the client keeps calling after a failure (rcs=...)
+  tarstrm <B> <s|n> <data> <recsize> <filesize> <sparse> <op,...> <script>
+                                                one archive member through the tar iterator (Sqfs.IoLoops.tarMemberRun);
+                                                <sparse> = "-" | off:count,off:count,...
+  tarspec <B> <data> <recsize> <filesize> <sparse> <op,...>   the same run over the ideal window stream, no OS
+  xtarstrm <B> <BX> <s|n> <data> <recsize> <filesize> <sparse> <op,...> <script>
+                                                the member run through the transforming istream (pass-through codec)
+  lines   <flags,flags,...> <data>              the byte-at-a-time scanner Spec.nextLine applied repeatedly
 
-  <data>   = "-" | hex | g<seed>:<len>:<mode>   (generated, same generator as the harness)
+  <data>   = "-" | hex | g<seed>:<len>:<mode>   (generated, same generator as the harness) | <data>+<data>
   <script> = "-" | comma list of p<k> (short count k+1) | i (EINTR) | e (EIO) | z (return 0)
 -/
 namespace Driver.C12
@@ -61,7 +70,7 @@ def hexArr (cs : Array Char) : Option Bytes :=
       | _, _ => none
   (go (cs.size / 2) 0 (Array.mkEmpty (cs.size / 2))).map Array.toList
 
-def parseData (t : String) : Option Bytes :=
+def parseData1 (t : String) : Option Bytes :=
   if t = "-" then some []
   else if t.startsWith "g" then
     match (t.drop 1).toString.splitOn ":" with
@@ -72,6 +81,10 @@ def parseData (t : String) : Option Bytes :=
       pure (genData s l m)
     | _ => none
   else hexArr t.toList.toArray
+
+/-- `<piece>+<piece>+...`: the concatenation of the pieces -/
+def parseData (t : String) : Option Bytes :=
+  ((t.splitOn "+").mapM parseData1).map List.flatten
 
 def parseEv (t : String) : Option Ev :=
   if t = "i" then some .eintr
@@ -113,7 +126,9 @@ def errCode : Err → String
   | .io => "-" ++ toString Sqfs.Consts.errIo
   | .oob => "-" ++ toString Sqfs.Consts.errOutOfBounds
   | .compressor => "-" ++ toString Sqfs.Consts.errCompressor
+  | .corrupted => "-" ++ toString Sqfs.Consts.errCorrupted
   | .fuel => "fuel"
+  | .nullDeref => "nullderef"
 
 def traceTok (os : OS) : String :=
   let calls := os.log.reverse
@@ -145,7 +160,44 @@ def showObs : Obs → String
   | .record none => "Mnull"
 
 def showOstream (o : OStream) : String :=
-  "out=" ++ dtok o.out ++ " size=" ++ toString o.size ++ " sparse=" ++ toString o.sparse
+  "out=" ++ dtok o.out ++ " size=" ++ toString o.size ++ " sparse=" ++ toString o.sparse ++
+  " pos=" ++ toString (o.out.length + o.skew)
+
+def tstate : TState → String
+  | .ok => "0"
+  | .eof => "1"
+  | .err e => errCode e
+  | .minus1 => "-1"
+
+def nextRet : NextRet → String
+  | .sequence => "-" ++ toString Sqfs.Consts.errSequence
+  | .state s => tstate s
+  | .header _ => "0"
+
+def parseSparse (t : String) : Option (List SparseEnt) :=
+  if t = "-" then some [] else
+  (t.splitOn ",").mapM fun e =>
+    match e.splitOn ":" with
+    | [a, b] => do
+      let x ← a.toNat?
+      let y ← b.toNat?
+      pure ⟨x, y⟩
+    | _ => none
+
+def showTarRun {σ : Type} (r : NextRet × List Obs × Option NextRet × TarIt σ × OStream × OS) : String :=
+  match r with
+  | (n1, obs, n2, it, _, _) =>
+    "n1=" ++ nextRet n1 ++ " " ++ " ".intercalate (obs.map showObs) ++ (if obs.isEmpty then "" else " ") ++
+    "n2=" ++ (match n2 with | some x => nextRet x | none => "-") ++
+    " it=" ++ tstate it.state ++ "," ++ toString it.recordSize ++ "," ++ toString it.offset
+
+/-- `nextLine` applied once per flags value, rendered like the `L` observations -/
+def linesSpec : List Nat → Bytes → Nat → List String
+  | [], _, _ => []
+  | f :: fs, rest, ln =>
+    match Sqfs.IoLoops.Spec.nextLine f rest ln with
+    | (some l, rest', ln') => ("L0:" ++ dtok l ++ ":" ++ toString ln') :: linesSpec fs rest' ln'
+    | (none, rest', ln') => ("L1:" ++ toString ln') :: linesSpec fs rest' ln'
 
 def oopLen : OOp → Nat
   | .data d => d.length
@@ -169,15 +221,19 @@ def step (line : String) : String :=
   | ["ostream", fl, ops, sc] =>
     match parseOOps ops, parseScript sc with
     | some ops, some sc =>
+      if fl = "S" ∨ fl = "N" then
+        match runOOpsAll (OStream.init (fl = "N")) ops ⟨sc, []⟩ with
+        | (es, o, os) => "rcs=" ++ (if es.isEmpty then "-" else ",".intercalate (es.map errCode)) ++ " " ++ showOstream o ++ tail os
+      else
       if fl ≠ "s" ∧ fl ≠ "n" then "bad-op" else
-      match runOOps 0 ⟨[], 0, 0, fl = "n"⟩ ops ⟨sc, []⟩ with
+      match runOOps 0 (OStream.init (fl = "n")) ops ⟨sc, []⟩ with
       | ((e, idx), o, os) => "rc=" ++ errCode e ++ "@" ++ toString idx ++ " " ++ showOstream o ++ tail os
     | _, _ => "bad-op"
   | ["istream", b, fl, d, ops, sc] =>
     match b.toNat?, parseData d, parseOps ops, parseScript sc with
     | some B, some data, some ops, some sc =>
       if (fl ≠ "s" ∧ fl ≠ "n") ∨ B = 0 then "bad-op" else
-      match runOps (fileStream B) ⟨IStream.init data, ⟨[], 0, 0, fl = "n"⟩, 0⟩ ops ⟨sc, []⟩ with
+      match runOps (fileStream B) ⟨IStream.init data, OStream.init (fl = "n"), 0⟩ ops ⟨sc, []⟩ with
       | (obs, c, os) =>
         " ".intercalate (obs.map showObs) ++ (if obs.isEmpty then "" else " ") ++
         "st=" ++ (if c.s.eof then "1" else "0") ++ "," ++ toString c.s.off ++ "," ++ toString c.s.buf.length ++
@@ -189,7 +245,7 @@ def step (line : String) : String :=
       if (fl ≠ "s" ∧ fl ≠ "n") ∨ B = 0 then "bad-op" else
       let limit := 4 * data.length + 1000
       match runOps (xfrmStream (fileStream B) toyCodec BX limit)
-          ⟨⟨IStream.init data, 0, 0, []⟩, ⟨[], 0, 0, fl = "n"⟩, 0⟩ ops ⟨sc, []⟩ with
+          ⟨⟨IStream.init data, 0, 0, []⟩, OStream.init (fl = "n"), 0⟩ ops ⟨sc, []⟩ with
       | (obs, c, os) =>
         " ".intercalate (obs.map showObs) ++ (if obs.isEmpty then "" else " ") ++
         "xst=" ++ toString c.s.off ++ "," ++ toString c.s.buf.length ++ "," ++ toString c.s.k ++
@@ -203,7 +259,7 @@ def step (line : String) : String :=
       if B = 0 then "bad-op" else
       let limit := 4 * data.length + 1000
       match runOps (xfrmStream (Sqfs.IoLoops.Spec.idealStream B data) toyCodec BX limit)
-          ⟨⟨⟨0, 0⟩, 0, 0, []⟩, ⟨[], 0, 0, false⟩, 0⟩ ops OS.full with
+          ⟨⟨⟨0, 0⟩, 0, 0, []⟩, OStream.init false, 0⟩ ops OS.full with
       | (obs, c, _) =>
         " ".intercalate (obs.map showObs) ++ (if obs.isEmpty then "" else " ") ++
         "out=" ++ dtok c.o.out ++ " ln=" ++ toString c.ln
@@ -213,16 +269,51 @@ def step (line : String) : String :=
     | some BX, some ops, some sc =>
       if fl ≠ "s" ∧ fl ≠ "n" then "bad-op" else
       let limit := 4 * (ops.map fun o => (oopLen o)).sum + 1000
-      match xRunOOps toyCodec BX limit 0 ⟨⟨[], 0, 0, fl = "n"⟩, 0, []⟩ ops ⟨sc, []⟩ with
+      match xRunOOps toyCodec BX limit 0 ⟨OStream.init (fl = "n"), 0, []⟩ ops ⟨sc, []⟩ with
       | ((e, idx), x, os) =>
         "rc=" ++ errCode e ++ "@" ++ toString idx ++ " inbuf=" ++ toString x.inbuf.length ++ " k=" ++ toString x.k ++
         " " ++ showOstream x.o ++ tail os
     | _, _, _ => "bad-op"
+  | ["tarstrm", b, fl, d, rs, fs, sp, ops, sc] =>
+    match b.toNat?, parseData d, rs.toNat?, fs.toNat?, parseSparse sp, parseOps ops, parseScript sc with
+    | some B, some data, some rs, some fs, some sp, some ops, some sc =>
+      if (fl ≠ "s" ∧ fl ≠ "n") ∨ B = 0 then "bad-op" else
+      match tarMemberRun (fileStream B) (IStream.init data) ⟨rs, fs, sp⟩ (OStream.init (fl = "n")) ops ⟨sc, []⟩ with
+      | (n1, obs, n2, it, o, os) =>
+        showTarRun (n1, obs, n2, it, o, os) ++
+        " st=" ++ (if it.stream.eof then "1" else "0") ++ "," ++ toString it.stream.off ++ "," ++ toString it.stream.buf.length ++
+        " " ++ showOstream o ++ tail os
+    | _, _, _, _, _, _, _ => "bad-op"
+  | ["xtarstrm", b, bx, fl, d, rs, fs, sp, ops, sc] =>
+    match b.toNat?, bx.toNat?, parseData d, rs.toNat?, fs.toNat?, parseSparse sp, parseOps ops, parseScript sc with
+    | some B, some BX, some data, some rs, some fs, some sp, some ops, some sc =>
+      if (fl ≠ "s" ∧ fl ≠ "n") ∨ B = 0 then "bad-op" else
+      let limit := 4 * data.length + 1000
+      match tarMemberRun (xfrmStream (fileStream B) passCodec BX limit) ⟨IStream.init data, 0, 0, []⟩ ⟨rs, fs, sp⟩
+          (OStream.init (fl = "n")) ops ⟨sc, []⟩ with
+      | (n1, obs, n2, it, o, os) =>
+        showTarRun (n1, obs, n2, it, o, os) ++
+        " xst=" ++ toString it.stream.off ++ "," ++ toString it.stream.buf.length ++ "," ++ toString it.stream.k ++
+        " st=" ++ (if it.stream.wrapped.eof then "1" else "0") ++ "," ++ toString it.stream.wrapped.off ++ "," ++
+        toString it.stream.wrapped.buf.length ++
+        " " ++ showOstream o ++ tail os
+    | _, _, _, _, _, _, _, _ => "bad-op"
+  | ["tarspec", b, d, rs, fs, sp, ops] =>
+    match b.toNat?, parseData d, rs.toNat?, fs.toNat?, parseSparse sp, parseOps ops with
+    | some B, some data, some rs, some fs, some sp, some ops =>
+      if B = 0 then "bad-op" else
+      match tarMemberRun (Sqfs.IoLoops.Spec.idealStream B data) ⟨0, 0⟩ ⟨rs, fs, sp⟩ (OStream.init false) ops OS.full with
+      | (n1, obs, n2, it, o, os) => showTarRun (n1, obs, n2, it, o, os) ++ " out=" ++ dtok o.out
+    | _, _, _, _, _, _ => "bad-op"
+  | ["lines", fls, d] =>
+    match (fls.splitOn ",").mapM (fun (t : String) => t.toNat?), parseData d with
+    | some fl, some data => " ".intercalate (linesSpec fl data 0)
+    | _, _ => "bad-op"
   | ["spec", b, d, ops] =>
     match b.toNat?, parseData d, parseOps ops with
     | some B, some data, some ops =>
       if B = 0 then "bad-op" else
-      match runOps (Sqfs.IoLoops.Spec.idealStream B data) ⟨⟨0, 0⟩, ⟨[], 0, 0, false⟩, 0⟩ ops OS.full with
+      match runOps (Sqfs.IoLoops.Spec.idealStream B data) ⟨⟨0, 0⟩, OStream.init false, 0⟩ ops OS.full with
       | (obs, c, _) =>
         " ".intercalate (obs.map showObs) ++ (if obs.isEmpty then "" else " ") ++
         "out=" ++ dtok c.o.out ++ " ln=" ++ toString c.ln
